@@ -140,6 +140,62 @@ pub fn worker() -> Handler {
     })
 }
 
+
+/// (g) Values that are re-interpreted as code: arithmetic evaluates the *value* of every name it reads,
+/// namerefs and aliases are followed transitively. Every assignment of two values from a small alphabet of
+/// self- and cross-referencing expressions to the names a and b, under four attribute set-ups, read through
+/// every arithmetic entry point. Cycles must end in a diagnostic, not in native-stack exhaustion.
+pub fn reinterpretation_cases() -> Vec<CorpusCase> {
+    const VALS: &[&str] = &["", "1", "a", "b", "a+1", "b[a]", "a[b]", "b[0]", "a[a]", "$a", "b[b[a]]", "x=a", "a++", "b[a]+b[a]", "a?b:a", "a,b"];
+    const SETUPS: &[(&str, &str)] = &[
+        ("plain", "a=⟦A⟧; b=⟦B⟧"),
+        ("integer", "declare -i a b; a=⟦A⟧; b=⟦B⟧"),
+        ("array", "a=⟦A⟧; b=(⟦B⟧ ⟦A⟧)"),
+        ("nameref", "declare -n a=⟦A⟧ b=⟦B⟧"),
+    ];
+    const READS: &[(&str, &str)] = &[
+        ("arith-exp", "echo $((a))"),
+        ("arith-cmd", "((a)); echo $?"),
+        ("let", "let a; echo $?"),
+        ("subscript-read", "x=(1 2 3); echo ${x[a]}"),
+        ("subscript-write", "x=(1 2); x[a]=5; echo ${x[@]}"),
+        ("substring", "v=hello; echo ${v:a:b}"),
+        ("integer-assign", "declare -i z; z=a; echo $z"),
+        ("test-eq", "[[ a -eq b ]]; echo $?"),
+        ("arith-for", "for ((i=a; i<1; i++)); do break; done; echo $?"),
+        ("indirect", "echo ${!a} ${!b}"),
+        ("unset-elem", "x=(1 2); unset 'x[a]'; echo ${x[@]}"),
+        ("printf-v", "x=(1 2); printf -v 'x[a]' %s q; echo ${x[@]}"),
+        ("test-v", "x=(1 2); test -v 'x[a]'; echo $?"),
+        ("read-elem", "x=(1 2); read 'x[a]' <<<7; echo ${x[@]}"),
+        ("plain-read", "echo $a $b ${a[0]} ${b[@]}"),
+        ("compound-assign", "((a+=b)); echo $? $a"),
+    ];
+    let mut v = vec![];
+    for (sn, st) in SETUPS {
+        for va in VALS {
+            for vb in VALS {
+                if *sn == "nameref" && (va.is_empty() || vb.is_empty()) {
+                    continue;
+                }
+                let q = |x: &str| format!("'{x}'");
+                let setup = st.replace("⟦A⟧", &q(va)).replace("⟦B⟧", &q(vb));
+                for (rn, rd) in READS {
+                    v.push(CorpusCase { text: format!("{setup} 2>/dev/null\n{rd}\necho end"), tags: vec!["reinterpret".into(), format!("setup:{sn}"), format!("read:{rn}")] });
+                }
+            }
+        }
+    }
+    // aliases: every pair of bodies for the aliases a and b
+    const ABODY: &[&str] = &["a", "b", "a b", "echo a", "b;a", "a ", "b "];
+    for x in ABODY {
+        for y in ABODY {
+            v.push(CorpusCase { text: format!("shopt -s expand_aliases\nalias a='{x}' b='{y}'\na\necho end"), tags: vec!["reinterpret".into(), "setup:alias".into()] });
+        }
+    }
+    v
+}
+
 fn input_tags(s: &str, extra: &[String]) -> Vec<String> {
     let mut t: Vec<String> = extra.to_vec();
     if s.chars().filter(|c| c.is_ascii_digit()).count() >= 19 {
@@ -187,6 +243,8 @@ pub fn run(tier: Tier, _replay: Option<Value>) -> ! {
             v
         }
     };
+    let mut corpus_all = corpus_all;
+    corpus_all.extend(reinterpretation_cases());
     // The phases are independent and mostly wait on wall-clock caps: the bash pre-pass, the in-process
     // execution and the real-binary runs proceed in the background while the parser/editor passes run.
     let exec_cases: Vec<&CorpusCase> = corpus_all.iter().filter(|c| c.text.len() <= 150_000).collect();
@@ -232,7 +290,7 @@ pub fn run(tier: Tier, _replay: Option<Value>) -> ! {
     // ---- corpus through the parser entry points and the line-editor entry points
     rep.set("corpus_cases", corpus_all.len() as u64);
     for (mode, what, chunk) in [("parse", "corpus-parse", 100usize), ("editor", "editor", 25usize)] {
-        let lines: Vec<&CorpusCase> = corpus_all.iter().filter(|c| if mode == "parse" { c.text.len() <= 5000 } else { c.text.len() <= 200 }).collect();
+        let lines: Vec<&CorpusCase> = corpus_all.iter().filter(|c| if mode == "parse" { c.text.len() <= 5000 } else { c.text.len() <= 200 && !c.tags.iter().any(|t| t == "reinterpret") }).collect();
         // the editor pass takes every cursor position (a completion each): at the quick tier it covers the
         // default templates, the nestings and three boundary values per slot
         let lines: Vec<&CorpusCase> = if mode == "editor" && tier == Tier::Quick {
@@ -323,7 +381,7 @@ pub fn run(tier: Tier, _replay: Option<Value>) -> ! {
     }
     rep.set("real_binary_runs", pr.len() as u64);
     rep.rule = format!(
-        "(a) all strings over the {}-symbol alphabet with <= {max_len} symbols through tokenizer (3 option sets), program parser, word, brace, arithmetic, pattern, prompt, parameter and here-doc parsers; (b)-(d) {} construct templates x {} boundary values (single{}), token mutations (deviation bound {}), nestings of {} constructs and ordered pairs to depth 64 — parsed, executed in-process via run_script / run_dash_c_command, and (templates, nestings) by the real binary on file/-c/stdin; (f) completion at every cursor and prompt expansion; non-trivial = inputs that parse / scripts bash finishes",
+        "(a) all strings over the {}-symbol alphabet with <= {max_len} symbols through tokenizer (3 option sets), program parser, word, brace, arithmetic, pattern, prompt, parameter and here-doc parsers; (b)-(d) {} construct templates x {} boundary values (single{}), token mutations (deviation bound {}), nestings of {} constructs and ordered pairs to depth 64 — parsed, executed in-process via run_script / run_dash_c_command, and (templates, nestings) by the real binary on file/-c/stdin; (f) completion at every cursor and prompt expansion; (g) all pairs of 16 self-/cross-referencing values for the names a, b under plain/integer/array/nameref set-ups read through 16 arithmetic, subscript and indirection entry points, and all pairs of 7 alias bodies; non-trivial = inputs that parse / scripts bash finishes",
         SIGMA1.len(),
         corpus::TEMPLATES.len(),
         corpus::BOUNDARY.len() + 1,
